@@ -229,7 +229,8 @@ static void barrier_body(int n, int gens) {
 // ---------------------------------------------------------------------------------------------
 
 static std::vector<Op> alphabet(bool thorough) {
-    std::vector<Op> a = {{'s', 1, 0}, {'S', 2, 0}, {'w', 1, 0}, {'w', 2, 0}, {'w', 1, 1}, {'t', 1, 0}};
+    // 'S' with a = 1 is signal(1) through the delta overload (a different code path from the parameterless signal())
+    std::vector<Op> a = {{'s', 1, 0}, {'S', 2, 0}, {'S', 1, 0}, {'w', 1, 0}, {'w', 2, 0}, {'w', 1, 1}, {'t', 1, 0}};
     if (thorough) {
         a.push_back({'S', 3, 0});
         a.push_back({'w', 0, 1});
@@ -309,7 +310,7 @@ int main(int argc, char** argv) {
                 sx.stateful = true;
                 sx.state_cb = &sem_state;
                 sx.spurious_pass = false;
-                sx.thorough_only = !(ss.size() == 2 && calls <= 3);
+                sx.thorough_only = !(ss.size() == 2 && calls <= 2);
                 scs.push_back(sx);
             }
         }
